@@ -894,6 +894,51 @@ r3:
 			}
 			r.Check(ok, "C18.R4", "MemberSet.Except", "Except(s, arg) = members of s whose ID is not among arg's IDs", w.fnPos(except), detail)
 		exceptDone:
+			// no shortcut around the scan: every return has walked the receiver's members, unless the receiver is known
+			// to be empty (nothing to report) or the argument is and the whole receiver is returned
+			{
+				g := w.FGI(except)
+				NEXT := make([]bool, len(g.ins))
+				for i, in := range g.ins {
+					if nx, isN := in.(*ssa.Next); isN && strings.HasPrefix(w.pathOf(nx), "next(range(P0.members))") {
+						NEXT[i] = true
+					}
+				}
+				lenZero := func(path string) []Edge {
+					e, _ := g.CondEdges(func(c ssa.Value) (bool, bool) {
+						b, ok := c.(*ssa.BinOp)
+						if !ok {
+							return false, false
+						}
+						args, isLen := isBuiltinCall(b.X, "len")
+						if !isLen || w.pathOf(args[0]) != path {
+							return false, false
+						}
+						switch y := w.pathOf(b.Y); {
+						case y == "K:0" && (b.Op == token.EQL || b.Op == token.LEQ), y == "K:1" && b.Op == token.LSS:
+							return true, true
+						case y == "K:0" && (b.Op == token.NEQ || b.Op == token.GTR), y == "K:1" && b.Op == token.GEQ:
+							return false, true
+						}
+						return false, false
+					})
+					return e
+				}
+				selfEmpty, argEmpty := lenZero("P0.members"), lenZero("P1")
+				var short []string
+				for _, x := range g.returns {
+					if g.Before(NEXT, x) || (len(selfEmpty) > 0 && g.OnlyVia(selfEmpty, x)) {
+						continue
+					}
+					if ret, isR := g.ins[x].(*ssa.Return); isR && len(ret.Results) == 1 && len(argEmpty) > 0 && g.OnlyVia(argEmpty, x) &&
+						w.pathOf(ret.Results[0]) == "call:(*cluster.MemberSet).Slice(P0)" {
+						continue
+					}
+					short = append(short, w.pos(g.ins[x].Pos()))
+				}
+				r.Check(len(short) == 0 && anyOf(NEXT), "C18.R4", "MemberSet.Except:no-shortcut", "every result of Except comes from a scan of the receiver's members (or the receiver is empty)", w.fnPos(except),
+					"Except returns at "+strings.Join(short, ", ")+" without having looked at the receiver's members: a member that was replaced by another one in a single update is reported neither as joined nor as left")
+			}
 		}
 		sl := mk("Slice")
 		okS := false
@@ -1429,6 +1474,13 @@ func checkC19(w *World, r *Report) {
 			present, absent := w.lookupEdges(ag, "P0.activated")
 			if len(present) > 0 {
 				okA = actionOnEdge(ag, absent, upd)
+				// nothing but "already known" keeps an announced activation out of the table
+				both := append(append([]Edge{}, present...), absent...)
+				for _, x := range ag.returns {
+					if !ag.OnlyVia(both, x) {
+						okA = false
+					}
+				}
 			} else {
 				okA = ag.AfterEntry(upd)
 			}
@@ -1896,6 +1948,14 @@ func checkC19(w *World, r *Report) {
 			}
 		}
 		r.Check(ok2, "C19.R5", fname(a.hActReq)+":spawn", "the registered producer of that kind is spawned as kind/id and its PID returned with Success:true", w.fnPos(a.hActReq), "the activation spawns something else than the requested kind/id, or does not report its PID")
+	}
+	// R7: placement and the activation table work from the member view: its joins and leaves are the exact set differences
+	// (C18.R1/R4), and a peer address whose writer never got a stream is forgotten, so that a member that appears there
+	// later is reached by topology and activation messages (C17.R3)
+	if r.Prop == "C19" {
+		r.Rule("C19.R7", "the member view the placement works from is exact (set differences by Member.ID, C18.R1/R4); a stream writer that ends tells the router to forget it on every path (C17.R3)", 8)
+		importRules(w, r, checkC18, "C18", "C19.R7", func(o *Obligation) bool { return o.Rule == "C18.R1" || o.Rule == "C18.R4" })
+		importRules(w, r, checkC17, "C17", "C19.R7", func(o *Obligation) bool { return o.Rule == "C17.R3" && strings.Contains(o.Key, "Shutdown") })
 	}
 }
 
